@@ -71,6 +71,9 @@ JudgeEnc(c) ==
     IF c.bytes = GroupBytes(c.fmt, c.charge, c.power, c.soc) THEN {} ELSE {"C19.GroupBytes"}
 
 SwitchOff(v) == v.k = "num" /\ v.a[2] = 0          \* switch byte >= 0: the group is not enabled
+\* the same on the bytes of a group as they stand in the inverter afterwards: 12-byte format: the signed on/off byte is not
+\* negative; 8-byte format: the on/off byte is 0
+RawOff(v2, b) == IF v2 THEN Len(b) >= 5 /\ b[5] < 128 ELSE Len(b) >= 7 /\ b[7] = 0
 
 JudgeMode(c) ==
     IF ~c.setok THEN {"INFO.setfailed"}
@@ -84,6 +87,7 @@ JudgeMode(c) ==
                        \cup (IF c.mode = ECO_CHARGE /\ c.g1.a[10] # -1 /\ c.v2 /\ c.g1.a[8] # c.soc
                              THEN {"C19.GroupSoc"} ELSE {}))
                  \cup (IF \A k \in 1..Len(c.sw) : c.sw[k].k = "absent" \/ SwitchOff(c.sw[k]) THEN {} ELSE {"C19.OthersOff"})
+                 \cup (IF \A k \in 1..Len(c.raw) : RawOff(c.v2, c.raw[k]) THEN {} ELSE {"C19.OthersOffInInverter"})
                ELSE {})
 
 JudgeLimit(c) ==
